@@ -1,6 +1,7 @@
 package exec
 
 import (
+	"math"
 	"fmt"
 	"go/token"
 
@@ -113,5 +114,23 @@ func init() {
 	}
 	I[d+"Sum64"] = func(m *Machine, _ *frame, _ token.Pos, _ *ssa.Function, a []Value) Value {
 		return m.ufString("uf_xxhash", mkStr(*m.digestBuf(a[0].(*Value))))
+	}
+}
+
+func init() {
+	// value.IsStaleNaN in int53 float mode: only a NaN can be the stale marker (which NaN is unknown).
+	intrinsics["github.com/prometheus/prometheus/model/value.IsStaleNaN"] = func(m *Machine, _ *frame, _ token.Pos, _ *ssa.Function, a []Value) Value {
+		x := a[0].(*FloatV)
+		if x.IsConst() {
+			return m.boolT(math.Float64bits(x.Const()) == 0x7ff0000000000002)
+		}
+		if m.floatMode() == "int53" {
+			n := m.nanOf(m.toI53(x))
+			if n.IsFalse() {
+				return n
+			}
+			return m.F.And(n, m.F.Var(m.freshName("h_stale"), sym.Bool))
+		}
+		return m.F.Eq(m.floatBits(x), m.bv(64, 0x7ff0000000000002))
 	}
 }
